@@ -4,11 +4,13 @@ import (
 	"encoding/json"
 	"errors"
 	"fmt"
+	"io"
 	"regexp"
 	"strings"
 
 	"github.com/benhoyt/goawk/interp"
 	"github.com/benhoyt/goawk/parser"
+	"github.com/benhoyt/goawk/vexp"
 
 	"verifharness/awk"
 	"verifharness/core"
@@ -69,7 +71,19 @@ var c07Progs = []string{
 	`{ obs(NR, FNR, $0, RT) }`,
 	`BEGIN { while ((getline line) > 0) obs(NR, FNR, line, RT) }`,
 	`BEGIN { while ((getline) > 0) obs(NR, FNR, $0, RT) }`,
+	// command readers: the child's standard output is the chunked reader
+	`BEGIN { while (("src" | getline line) > 0) { n++; obs(n, n, line, RT) } }`,
+	`BEGIN { while (("src" | getline) > 0) { n++; obs(n, n, $0, RT) } }`,
 }
+
+// c07World hands the chunked reader to the interpreter as the standard output
+// pipe of every command it starts.
+type c07World struct{ rd io.Reader }
+
+func (w *c07World) StdinPipe(c *vexp.Cmd) (io.WriteCloser, error) { return nil, errors.New("no stdin") }
+func (w *c07World) StdoutPipe(c *vexp.Cmd) (io.ReadCloser, error) { return io.NopCloser(w.rd), nil }
+func (w *c07World) Start(c *vexp.Cmd) error                       { return nil }
+func (w *c07World) Wait(c *vexp.Cmd) error                        { return nil }
 
 type c07Runner struct {
 	progs []*parser.Program
@@ -95,6 +109,11 @@ func (r *c07Runner) run(cs c07Case) ([]c07Rec, awk.Result) {
 	rd.ErrAt = cs.ErrAt
 	rd.Err = errBoom
 	cfg := &interp.Config{Stdin: rd, Vars: []string{"RS", cs.RS}, Funcs: r.funcs}
+	if cs.Prog >= 3 {
+		cfg.Stdin = strings.NewReader("")
+		vexp.SetWorld(&vexp.World{Impl: &c07World{rd}})
+		defer vexp.SetWorld(nil)
+	}
 	res := awk.Exec(r.progs[cs.Prog], cfg)
 	out := r.recs
 	r.recs = nil
@@ -564,12 +583,13 @@ func init() {
 		ID:    "C07",
 		Level: "model_checking",
 		Rule: "deviation-bounded environment exploration: every input string up to the length bound over a per-RS alphabet x every chunking (2^(n-1)) x 2 EOF styles, " +
-			"plus getline paths, one empty read / one read error at every position, single split points of longer inputs and 64KiB buffer-edge inputs; " +
+			"plus getline / getline var on stdin and cmd | getline / cmd | getline var on a command's output pipe (inputs up to 4 symbols, every chunking), one empty read / one read error at every position, single split points of longer inputs and 64KiB buffer-edge inputs; " +
 			"a state is one (RS,input), a transition one delivery; distinct = distinct observed record sequences",
 		Assumptions: []string{
 			"bufio.Scanner depends only on the sequence of (n, err) results of Read, so enumerating chunk sequences enumerates pipe timings",
 			"oracle (1) (spec splitter) only where the statement fixes the answer: regexes that cannot match empty; RS=\"\" over {payload, newline}",
 			"Go regexp (leftmost-longest) is a trusted leaf of the specification splitter",
+			"getline < file is not driven with chosen chunkings (the API hands the interpreter a real *os.File); it shares scanner and split functions with the paths that are",
 		},
 		Run:    c07Run,
 		Replay: c07Replay,
